@@ -6,7 +6,7 @@
    theorems are generic in the bit width.  *_refuted / *_partial / *_iff: the statement at full strength is false
    of the unchanged plugin (witness), and holds exactly / at least on the stated domain. *)
 From Coq Require Import ZArith Bool List.
-From J2O Require Import PyLib Dtype Tensor Batch Reshape Graph Lowering LoweringSem OnnxInt Kernels Lift LiftProg LiftStruct.
+From J2O Require Import PyLib Dtype Tensor Batch Reshape Graph Lowering LoweringSem OnnxInt Kernels Lift LiftProg LiftReduce LiftStruct.
 Import ListNotations.
 Open Scope Z_scope.
 
@@ -669,3 +669,59 @@ Theorem C01K_struct_example :
   /\ opt_cten_is (sp_onnx sx_tab sx_prog [sx_cx; sx_cy] 5) (mkC [2; 3]%nat (map VZ [4; 15; -23; 0; 5; -1])) = true.
 Proof. exact sx_sp. Qed.
 Print Assumptions C01K_struct_example.
+
+(* ================================================================ integer reductions over axes, concatenate, slice (LiftReduce.v, LiftStruct.v)
+   XLA reduces in an unspecified order: red_any op l v = "v is the value of SOME tree of op over SOME permutation of l".
+   Every order gives the same value (wraparound included); the ONNX Reduce* node (sequential fold) is one of them. *)
+Theorem C01K_reduce_sum_any_order : forall sb l v, 0 < snd sb -> Forall (in_int sb) l ->
+  red_any (o_add sb) l v -> v = jax_reduce_sum sb l.
+Proof. exact any_order_sum. Qed.
+Print Assumptions C01K_reduce_sum_any_order.
+Theorem C01K_reduce_prod_any_order : forall sb l v, 0 < snd sb -> Forall (in_int sb) l ->
+  red_any (o_mul sb) l v -> v = jax_reduce_prod sb l.
+Proof. exact any_order_prod. Qed.
+Print Assumptions C01K_reduce_prod_any_order.
+Theorem C01K_reduce_max_any_order : forall l v, red_any Z.max l v -> jax_reduce_max l = Some v.
+Proof. exact any_order_max. Qed.
+Print Assumptions C01K_reduce_max_any_order.
+Theorem C01K_reduce_min_any_order : forall l v, red_any Z.min l v -> jax_reduce_min l = Some v.
+Proof. exact any_order_min. Qed.
+Print Assumptions C01K_reduce_min_any_order.
+(* the lowerings: Reduce* directly ... *)
+Theorem C01K_reduce_sum_correct : forall sb l, 0 < snd sb -> o_reduce_sum sb l = jax_reduce_sum sb l.
+Proof. exact reduce_sum_correct. Qed.
+Print Assumptions C01K_reduce_sum_correct.
+Theorem C01K_reduce_prod_correct : forall sb l, 1 < snd sb -> o_reduce_prod sb l = jax_reduce_prod sb l.
+Proof. exact reduce_prod_correct. Qed.
+Print Assumptions C01K_reduce_prod_correct.
+(* ... Cast(int64) -> ReduceSum / ReduceProd -> Cast back for the types ONNX has no variant for (any width <= 64, no side
+   condition on the elements) ... *)
+Theorem C01K_reduce_sum_via64_correct : forall sb l, 0 < snd sb <= 64 -> lowered_reduce_sum_via64 sb l = jax_reduce_sum sb l.
+Proof. exact reduce_sum_via64_correct. Qed.
+Print Assumptions C01K_reduce_sum_via64_correct.
+Theorem C01K_reduce_prod_via64_correct : forall sb l, 0 < snd sb <= 64 -> lowered_reduce_prod_via64 sb l = jax_reduce_prod sb l.
+Proof. exact reduce_prod_via64_correct. Qed.
+Print Assumptions C01K_reduce_prod_via64_correct.
+(* ... Cast(int32) -> ReduceMax / ReduceMin -> Cast back for 16-bit types (elements in their type) ... *)
+Theorem C01K_reduce_minmax_via32_correct : forall rk sb l, (rk = RMax \/ rk = RMin) -> 0 < snd sb <= 16 ->
+  Forall (fun v => elem_in sb v = true) l ->
+  sem1 (OCast sb) (sred_onnx rk I32r (map (sem1 (OCast I32r)) l)) = sred_jax rk sb l.
+Proof. exact mm_law. Qed.
+Print Assumptions C01K_reduce_minmax_via32_correct.
+(* ... and Cast(int64) -> ReduceMin / ReduceSum -> Cast(bool) for reduce_and / reduce_or *)
+Theorem C01K_reduce_and_correct : forall l, l <> [] -> lowered_reduce_and l = Some (jax_reduce_and l).
+Proof. exact reduce_and_correct. Qed.
+Print Assumptions C01K_reduce_and_correct.
+Theorem C01K_reduce_or_correct : forall l, Z.of_nat (length l) < 2 ^ 63 -> lowered_reduce_or l = jax_reduce_or l.
+Proof. exact reduce_or_correct. Qed.
+Print Assumptions C01K_reduce_or_correct.
+(* lax.slice vs ONNX Slice (which first clamps starts / ends into [0, dim]) under JAX's precondition *)
+Theorem C01K_slice_correct : forall (A : Type) (starts limits strides : list nat) (X : tensor A),
+  slice_okb (shape X) starts limits strides = true -> onnx_slice starts limits strides X = jax_slice starts limits strides X.
+Proof. exact @slice_correct. Qed.
+Print Assumptions C01K_slice_correct.
+(* the tensor-level kernels (all ranks, any axes mask) are part of C01K_struct_kernels_ok / C01K_struct_program_correct:
+   gspec now also has GReduce, GReduceSum64, GReduceProd64, GReduceMax32, GReduceMin32, GReduceAnd, GReduceOr, GConcat, GSlice *)
+Theorem C01K_reduce_kernel_ok : forall rk sb mask, gkern_ok ssem (gk_reduce rk sb mask).
+Proof. exact gk_reduce_ok. Qed.
+Print Assumptions C01K_reduce_kernel_ok.
